@@ -161,7 +161,8 @@ impl Interp {
             }
             ["vm.server", name, ..] => {
                 let Some(u) = kv(t, "users") else { return "bad-op".into() };
-                match crate::stream::vm::server(&crate::stream::parse_users(u)) {
+                let r = if kv(t, "adapter") == Some("ws") { crate::stream::vm::ws_server(&self.rt, &crate::stream::parse_users(u)) } else { crate::stream::vm::server(&crate::stream::parse_users(u)) };
+                match r {
                     Ok(o) => {
                         self.objs.insert(name.to_string(), Obj::Stream(o));
                         "ok".into()
@@ -181,7 +182,8 @@ impl Interp {
             }
             ["tj.server", name, ..] => {
                 let Some(p) = kv(t, "password") else { return "bad-op".into() };
-                match crate::stream::tj::server(p) {
+                let r = if kv(t, "adapter") == Some("ws") { crate::stream::tj::ws_server(&self.rt, p) } else { crate::stream::tj::server(p) };
+                match r {
                     Ok(o) => {
                         self.objs.insert(name.to_string(), Obj::Stream(o));
                         "ok".into()
@@ -209,10 +211,11 @@ impl Interp {
                     Err(_) => "err".into(),
                 }
             }
-            ["ss.new", name, ctx, addr] => {
+            ["ss.new", name, ctx, addr, ..] => {
                 let a = if *addr == "-" { None } else { parse_addr(addr) };
                 let Some(Obj::SsCtx(c)) = self.objs.get(*ctx) else { return "bad-op".into() };
-                match crate::stream::ss::new_stream(c, a) {
+                let r = if kv(t, "adapter") == Some("ws") { crate::stream::ss::new_ws_server(&self.rt, c) } else { crate::stream::ss::new_stream(c, a) };
+                match r {
                     Ok(o) => {
                         self.objs.insert(name.to_string(), Obj::Stream(o));
                         "ok".into()
